@@ -33,6 +33,7 @@ from dask_expr._expr import (
     Expr,
     Index,
     Projection,
+    RenameAxis,
     RenameFrame,
     RenameSeries,
     ResetIndex,
@@ -237,6 +238,9 @@ class ShuffleReduce(Expr):
         # Reset the index if we we used it for shuffling
         if split_by_index:
             shuffled = SetIndexBlockwise(shuffled, split_by, True, None)
+            if self.frame._meta.index.names == [None]:
+                # reset_index labelled the unnamed index "index"
+                shuffled = RenameAxis(shuffled, mapper=None)
 
         # Convert back to Series if necessary
         if self.shuffle_by_index is not False:
